@@ -41,6 +41,8 @@ type item struct {
 	used    map[string]int // stream "pure2": the constructs of the enlarged fragment the program uses
 	must    bool           // stream "pure3": the reference run pure2_run has to succeed on this program (P2Must)
 	refused bool           // the evaluator model refuses part of the program (dict.copy, sorted(key=)): a refusal is no disagreement
+	lazyp   *lazyProbe     // stream "lazy"
+	joinp   *joinProbe     // stream "joincomp"
 }
 
 func hasBigInt(p aspgen.Prog) bool {
@@ -296,6 +298,24 @@ func main() {
 			add(&item{name: fmt.Sprintf("sortkey:%d", i), stream: "sortkey", build: sp.prog, sortp: sp, refused: true})
 		}
 
+		// follow-up 2: what is EVALUATED. Operands of and / or that the left operand makes irrelevant must not run (their side effect
+		// is read back), and the variable of a comprehension inside 'sep'.join(...) must not leak into the enclosing scope
+		nLazy, nJoin := c.Scale(60, 2500), c.Scale(60, 2500)
+		for i, lp := range LazyRegressions() {
+			add(&item{name: fmt.Sprintf("lazy:fixed%d", i), stream: "lazy", build: lp.prog, lazyp: lp})
+		}
+		for i := 0; i < nLazy; i++ {
+			lp := LazyProbe(c.Rng.Fork())
+			add(&item{name: fmt.Sprintf("lazy:%d", i), stream: "lazy", build: lp.prog, lazyp: lp})
+		}
+		for i, jp := range JoinRegressions() {
+			add(&item{name: fmt.Sprintf("joincomp:fixed%d", i), stream: "joincomp", defs: jp.defs, build: jp.build, joinp: jp})
+		}
+		for i := 0; i < nJoin; i++ {
+			jp := JoinProbe(c.Rng.Fork(), i%3 != 2)
+			add(&item{name: fmt.Sprintf("joincomp:%d", i), stream: "joincomp", defs: jp.defs, build: jp.build, joinp: jp})
+		}
+
 		// ---- run the real interpreter, validate the printer
 		var jobs []aspgen.PyJob
 		for _, it := range items {
@@ -408,6 +428,27 @@ func main() {
 			}
 			c.Hist("outcome", "differ")
 			it.verdict = "differ"
+			if it.lazyp != nil && it.py.Err == "" {
+				bad := diffVars(it.asp.Final, it.py.OK, it.py.Skipped)
+				if lazyClass(it.lazyp, bad, aspgen.PlainGlobals(it.asp.Final), it.py.OK) {
+					c.Fail("lazy-operand-evaluated-although-left-operand-decides", "and / or followed by a tighter operator: asp evaluated (called) a right operand that CPython skips because the left operand decides; the values agree, the side effects differ on "+strings.Join(bad, ","),
+						map[string]any{"src": it.src, "asp": it.asp.Final, "python": it.py})
+					c.Hist("lazy_probe", "operand-evaluated")
+					continue
+				}
+			}
+			if it.joinp != nil && it.py.Err == "" {
+				bad := diffVars(it.asp.Final, it.py.OK, it.py.Skipped)
+				if joinClass(it.joinp, bad) {
+					in := map[string]any{"src": it.src, "asp": it.asp.Final, "python": it.py, "shadowed": it.joinp.kind}
+					if it.defs != nil {
+						in["defs"] = aspgen.Source(it.defs)
+					}
+					c.Fail("join-comprehension-variable-leaks", "the loop variable of the comprehension inside 'sep'.join([...]) overwrote the "+it.joinp.kind+" of the same name in the enclosing scope: asp and CPython differ on "+strings.Join(bad, ","), in)
+					c.Hist("join_probe", "leak:"+it.joinp.kind)
+					continue
+				}
+			}
 			if it.sortp != nil && it.sortp.n > 12 && it.py.Err == "" {
 				// regression stream for /repo 62283f2 (sort.Slice -> sort.SliceStable): beyond 12 elements sort.Slice is pdqsort, which
 				// is not stable. The class is reported only when the one difference is the order of elements with EQUAL keys in the
@@ -544,7 +585,7 @@ func main() {
 				continue
 			}
 			maxOps, classes := chainStats(append(append(aspgen.Prog{}, it.defs...), it.build...))
-			nontrivial := maxOps >= 2 || it.stream == "program" || it.stream == "defs" || it.stream == "pure" || it.stream == "pure2" || it.stream == "pure3" || it.stream == "rangelen" || it.stream == "fresh" || it.stream == "sortkey"
+			nontrivial := maxOps >= 2 || it.stream == "program" || it.stream == "defs" || it.stream == "pure" || it.stream == "pure2" || it.stream == "pure3" || it.stream == "rangelen" || it.stream == "fresh" || it.stream == "sortkey" || it.stream == "lazy" || it.stream == "joincomp"
 			c.HistN("max_chain_ops", maxOps)
 			for _, cl := range classes {
 				c.Hist("chain_class", cl)
@@ -562,6 +603,16 @@ func main() {
 			}
 			if it.fresh != nil {
 				c.Hist("fresh_kind", it.fresh.kind+":"+it.verdict)
+			}
+			if it.lazyp != nil {
+				c.Hist("lazy_probe", fmt.Sprintf("deciding-left-operands=%d:%s", it.lazyp.decided, it.verdict))
+			}
+			if it.joinp != nil {
+				path := "generic"
+				if it.joinp.optimised {
+					path = "optimised"
+				}
+				c.Hist("join_probe", it.joinp.kind+":"+path+":"+it.verdict)
 			}
 			if it.sortp != nil {
 				c.Hist("sort_kind", it.sortp.kind)
